@@ -95,6 +95,38 @@ def fam_par_list(r):
     return GModel("AE", vars_, pars, eqs), "parameter-indexed-by-list"
 
 
+def fam_list_endpoints(r):
+    """index lists whose first and last entries look like the ends of a range (last - first + 1 == length) while the entries
+    in between are permuted or repeated: x[[0, 2, 1, 3]], b[[1, 1, 3]] — a list is a list, not a slice"""
+    k = int(r.integers(3, 6))
+    a = int(r.integers(0, 3))
+    inner = list(range(a + 1, a + k - 1))
+    if len(inner) >= 2 and r.random() < 0.6:
+        while True:
+            perm = [int(i) for i in r.permutation(inner)]
+            if perm != inner:
+                break
+        inner, repeated = perm, False
+    else:
+        j = int(r.integers(0, len(inner)))
+        inner[j] = inner[j] + int(r.choice([-1, 1]))          # a neighbour twice, one entry of the range missing
+        repeated = True
+    ks = [a] + inner + [a + k - 1]
+    if repeated or r.random() < 0.5:
+        L = a + k + int(r.integers(0, 3))
+        vars_ = [("x", ROUND(r, k), None)]
+        pars = [("b2", "plain", dict(value=ROUND(r, L)))]
+        eqs = [("e0", "alg", ("sub", ("mul", ("var", 0, ("w",)), ("par", 0, ("l", ks))), ("num", 1.0)), None)]
+        return GModel("AE", vars_, pars, eqs), "parameter-indexed-by-list"
+    n = a + k + int(r.integers(0, 2))
+    others = [i for i in range(n) if i not in ks]
+    vars_ = [("x", ROUND(r, n), None)]
+    eqs = [("e0", "alg", ("sub", ("mul", ("powi", ("var", 0, ("l", ks)), 2), ("num", 2.0)), ("var", 0, ("s", a, a + k))), None)]
+    for j, i in enumerate(others):
+        eqs.append((f"r{j}", "alg", ("sub", ("var", 0, ("i", i)), ("num", 0.5)), None))
+    return GModel("AE", vars_, [], eqs), "list-index"
+
+
 def fam_par_strided(r):
     n = int(r.integers(2, 4))
     L = 2 * n
@@ -379,7 +411,8 @@ def fam_random_matrix(r):
     return GModel("AE", vars_, pars, eqs), "random-matrix"
 
 
-FAMILIES = [fam_len1_mixed, fam_strided, fam_neg_stride, lambda r: fam_list(r, "l"), lambda r: fam_list(r, "lp"), fam_par_list, fam_par_strided, fam_oob,
+FAMILIES = [fam_len1_mixed, fam_strided, fam_neg_stride, lambda r: fam_list(r, "l"), lambda r: fam_list(r, "lp"), fam_par_list, fam_list_endpoints,
+            fam_list_endpoints, fam_par_strided, fam_oob,
             fam_mismatch, fam_ode_mismatch, fam_matvec, fam_matvec, fam_matvec, fam_matvec, fam_matvec, fam_matvec, fam_matvec_shape, fam_time_name, fam_zero_step, fam_random, fam_random,
             fam_random_matrix, fam_random_matrix]
 
